@@ -763,6 +763,8 @@ protected:
 
       std::string headerSection = dataStr.substr(0, headerEnd);
       std::size_t contentLength = 0;
+      bool haveContentLength = false;
+      bool badContentLength = false;
       bool isChunked = false;
 
       // Parse headers
@@ -792,9 +794,20 @@ protected:
 
           if (key == "content-length")
           {
-            try
+            // RFC 9110 §8.6 / RFC 9112 §6.3: the value is 1*DIGIT; repeated
+            // fields or a comma list are acceptable only when every member is
+            // the same number. Anything else is invalid framing information
+            // and must be rejected, never framed by a lenient prefix parse.
+            std::size_t parsedLength = 0;
+            if (!parseContentLengthValue(value, parsedLength) ||
+                (haveContentLength && parsedLength != contentLength))
             {
-              contentLength = std::stoull(value);
+              badContentLength = true;
+            }
+            else
+            {
+              haveContentLength = true;
+              contentLength = parsedLength;
               if (contentLength > SessionInfo::MAX_BODY_SIZE)
               {
                 iora::core::Logger::error("HttpServer: Body size limit exceeded for session " +
@@ -803,15 +816,6 @@ protected:
                 closeSession(sid);
                 return;
               }
-            }
-            catch (...)
-            {
-              iora::core::Logger::error("HttpServer: Invalid "
-                                        "content-length header for session " +
-                                        std::to_string(sid) + " - closing connection");
-              // No lock held; guarded close (was unguarded raw _transport->close).
-              closeSession(sid);
-              return;
             }
           }
           else if (key == "transfer-encoding")
@@ -824,6 +828,14 @@ protected:
             }
           }
         }
+      }
+
+      if (badContentLength)
+      {
+        iora::core::Logger::error("HttpServer: Invalid or conflicting Content-Length for session " +
+                                  std::to_string(sid) + " - rejecting request");
+        sendErrorResponse(sid, 400, "Bad Request", "Invalid Content-Length");
+        return;
       }
 
       std::size_t requestEndPos;
@@ -1359,6 +1371,42 @@ protected:
 
     iora::core::Logger::debug("HttpServer::processHttpRequest() - Exiting for session " +
                               std::to_string(sid));
+  }
+
+  /// \brief Strict Content-Length value: 1*DIGIT, or a comma list of identical numbers.
+  static bool parseContentLengthValue(const std::string &value, std::size_t &out)
+  {
+    bool have = false;
+    std::size_t start = 0;
+    while (start <= value.size())
+    {
+      std::size_t comma = value.find(',', start);
+      std::string item = value.substr(start, comma == std::string::npos ? std::string::npos : comma - start);
+      item.erase(0, item.find_first_not_of(" \t"));
+      item.erase(item.find_last_not_of(" \t") + 1);
+      if (item.empty() || item.size() > 19 ||
+          item.find_first_not_of("0123456789") != std::string::npos)
+      {
+        return false;
+      }
+      std::size_t n = 0;
+      for (char c : item)
+      {
+        n = n * 10 + static_cast<std::size_t>(c - '0');
+      }
+      if (have && n != out)
+      {
+        return false;
+      }
+      have = true;
+      out = n;
+      if (comma == std::string::npos)
+      {
+        break;
+      }
+      start = comma + 1;
+    }
+    return have;
   }
 
   /// \brief Find the end of a chunked request body
